@@ -308,7 +308,8 @@ instance (tbl m r) : Decidable (LinkOk tbl m r) := by unfold LinkOk; exact infer
 
 end Huginn.TcpSig.Spec
 
-/-! ### known-finding classes (DESIGN §7 C03 (a)–(e), §8 #3–#7) -/
+/-! ### known-finding classes (DESIGN §7 C03 (a)–(c), §8 #3–#5, and `bad`); (d) ecn twice, (e) window
+classifier header and (h) saturated MTU divisor were repaired in /repo (fixes/C03-*.patch) -/
 namespace Huginn.KF.C03
 open Huginn.TcpSig.Spec Huginn.TcpExtract
 
@@ -333,49 +334,18 @@ def mtuFromHeaderLengths (f : Fields) : Prop :=
   onOpt (parseArea f.tcp.opts) False fun a => mssValues a ≠ []
 instance (f) : Decidable (mtuFromHeaderLengths f) := by unfold mtuFromHeaderLengths; exact inferInstance
 
-/-- (d) ECN signalled both in the IP header and by ECE/CWR: `ecn` is listed twice. -/
-def ecnTwice (f : Fields) : Prop := ipEcn f ≠ 0 ∧ (Ece f ∨ Cwr f)
-instance (f) : Decidable (ecnTwice f) := by unfold ecnTwice; exact inferInstance
-
-/-- what the call site passes as `total_header`: IHL in words (v4) / 40 (v6); 0 falls back to the
-minimal sizes inside the classifier -/
-def codeWinHdr (f : Fields) : Nat :=
-  if f.ip.v6 then 40 else if f.ip.ihl > 0 then f.ip.ihl else 40
-
-/-- (e) the window is a multiple of "MSS + header" for exactly one of the two header sizes
-(the one the classifier is given, the one the signature language means). -/
-def winHeaderWords (f : Fields) : Prop :=
-  onOpt (parseArea f.tcp.opts) False fun a => onOpt (mssValues a).head? False fun m =>
-    min (m + codeWinHdr f) 65535 ≠ m + minHdr f ∧
-    (Mult f.tcp.window (min (m + codeWinHdr f) 65535) ∨ Mult f.tcp.window (m + minHdr f))
-instance (f) : Decidable (winHeaderWords f) := by unfold winHeaderWords; exact inferInstance
-
-/-- (h) `mss.saturating_add(header)` clamps at 65535, so a window of 65535 looks like `mtu*1` when the
-implied MTU exceeds 16 bits. Pure-level form (the classifier's own arguments). -/
-def winSaturatedMtuPure (w mss hdr : Nat) : Prop := 65535 < mss + hdr ∧ Mult w 65535
-instance (w m h) : Decidable (winSaturatedMtuPure w m h) := by unfold winSaturatedMtuPure; exact inferInstance
-
-def winSaturatedMtu (f : Fields) : Prop :=
-  onOpt (parseArea f.tcp.opts) False fun a => onOpt (mssValues a).head? False fun m =>
-    winSaturatedMtuPure f.tcp.window m (minHdr f)
-instance (f) : Decidable (winSaturatedMtu f) := by unfold winSaturatedMtu; exact inferInstance
-
 /-- (g) malformed option areas: the `bad` quirk is never reported. -/
 def badNeverReported (f : Fields) : Prop := parseArea f.tcp.opts = none
 instance (f) : Decidable (badNeverReported f) := by unfold badNeverReported; exact inferInstance
 
 def any (f : Fields) : Prop :=
-  optionsAfterEol f ∨ nonHandshakeAsServer f ∨ mtuFromHeaderLengths f ∨ ecnTwice f ∨
-  winHeaderWords f ∨ badNeverReported f ∨ winSaturatedMtu f
+  optionsAfterEol f ∨ nonHandshakeAsServer f ∨ mtuFromHeaderLengths f ∨ badNeverReported f
 instance (f) : Decidable (any f) := by unfold any; exact inferInstance
 
 def names (f : Fields) : List String :=
   (if optionsAfterEol f then ["KF.C03.optionsAfterEol"] else []) ++
   (if nonHandshakeAsServer f then ["KF.C03.nonHandshakeAsServer"] else []) ++
   (if mtuFromHeaderLengths f then ["KF.C03.mtuFromHeaderLengths"] else []) ++
-  (if ecnTwice f then ["KF.C03.ecnTwice"] else []) ++
-  (if winHeaderWords f then ["KF.C03.winHeaderWords"] else []) ++
-  (if badNeverReported f then ["KF.C03.badNeverReported"] else []) ++
-  (if winSaturatedMtu f then ["KF.C03.winSaturatedMtu"] else [])
+  (if badNeverReported f then ["KF.C03.badNeverReported"] else [])
 
 end Huginn.KF.C03
